@@ -180,7 +180,7 @@ fn scripted_max_frame(rep: &mut Report) {
         out
     });
     rep.count("c05.scripted-max-frame", 1);
-    if rep.thorough() {
+    {
         // the same boundary reached by local calls: automatic alias mapping of a maximum-size PUBLISH, and the
         // stored copy (full topic) of a maximum-size alias-only PUBLISH on a persistent session
         let r2 = crate::util::guarded(|| {
@@ -193,6 +193,11 @@ fn scripted_max_frame(rep: &mut Report) {
             let _ = c.recv_all(&rc::encode(&AP::Connack { ver, sp: false, code: 0, props: vec![Prop { id: 0x22, val: PVal::U16(4) }] }, 2));
             let p = AP::Publish { ver, dup: false, qos: 0, retain: false, topic: b"a".to_vec(), pid: None, props: vec![], payload: vec![b'p'; payload_for(2 + 1 + 1)] };
             let e1 = c.send(crate::bridge::build::<u16>(&p).ok().unwrap());
+            // (a') the same with a property block of 127 bytes: the alias property then also makes the Property
+            // Length grow to two bytes - the rewritten packet needs 4 bytes more, the given one has 3 to spare
+            let p = AP::Publish { ver, dup: false, qos: 0, retain: false, topic: b"b".to_vec(), pid: None, props: vec![Prop { id: 0x26, val: PVal::Pair(b"k".to_vec(), vec![b'v'; 121]) }], payload: vec![b'p'; 268_435_452usize - (2 + 1 + 1 + 127)] };
+            let e1b = c.send(crate::bridge::build::<u16>(&p).ok().unwrap());
+            let _ = e1b;
             // (b) persistent session, alias registered, alias-only QoS 1 PUBLISH at the maximum
             let mut d = ConnBox::<u16>::new(RoleK::Client, Some(ver));
             let _ = d.send(crate::bridge::build::<u16>(&AP::Connect { ver, clean: true, keep_alive: 0, client_id: b"c".to_vec(), will: None, user: None, pass: None, props: vec![Prop { id: 0x11, val: PVal::U32(100) }] }).ok().unwrap());
@@ -205,7 +210,7 @@ fn scripted_max_frame(rep: &mut Report) {
         });
         rep.count("c05.scripted-max-frame", 2);
         if let Err(m) = r2 {
-            rep.violation(crate::report::Violation { rule: "panic".into(), sig: format!("panic|{}|max-frame-send", crate::util::panic_sig(&m)), detail: format!("maximum-size PUBLISH handed to send() (automatic alias mapping / stored copy with the full topic): panic: {m}"), config: "c05 scripted maximum frame".into(), history: vec![serde_json::json!("client v5.0: (a) auto-map, CONNACK(Topic Alias Maximum 4), PUBLISH QoS 0 with Remaining Length 268435455; (b) persistent session, alias 1 registered, PUBLISH QoS 1 empty topic + alias 1 with Remaining Length 268435455")] });
+            rep.violation(crate::report::Violation { rule: "panic".into(), sig: format!("panic|{}|max-frame-send", crate::util::panic_sig(&m)), detail: format!("maximum-size PUBLISH handed to send() (automatic alias mapping / stored copy with the full topic): panic: {m}"), config: "c05 scripted maximum frame".into(), history: vec![serde_json::json!("client v5.0: (a) auto-map, CONNACK(Topic Alias Maximum 4), PUBLISH QoS 0 with Remaining Length 268435455, PUBLISH QoS 0 with a 127-byte property block and Remaining Length 268435452; (b) persistent session, alias 1 registered, PUBLISH QoS 1 empty topic + alias 1 with Remaining Length 268435455")] });
         }
     }
     match r {
